@@ -215,8 +215,8 @@ func (p *propC05) Check(sc *Scenario, st *Stats) []Violation {
 	if f.Proto != mf.Proto {
 		bad("grammar/protocol-version", "protocol version %#x written, header says %#x", f.Proto, mf.Proto)
 	}
-	if f.HasHCRC && f.HCRC == 0 {
-		bad("grammar/header-crc-zero", "14-byte header written with CRC 0")
+	if f.HasHCRC && f.HCRC == 0 && crc16(out[:12]) != 0 {
+		bad("grammar/header-crc-zero", "14-byte header written with CRC 0 although its contents sum to %#04x", crc16(out[:12]))
 	}
 	for _, rec := range f.Records {
 		if rec.Kind == "def" && rec.Def.Arch != t.Arch {
